@@ -517,7 +517,34 @@ def r6_weight_kept(repo: Repo, rep):
         break
 
 
+def r6_settings_unchanged(repo: Repo, rep):
+    R = rep.rule("R-C07-8", "OptimizerSetting hands every configured entry on: optimizer_args / scheduler_args are stored as given (or as a plain copy), never filtered by value", floor=2,
+                 why="dropping falsy entries removes an explicit weight_decay=0.0 / momentum=0 / amsgrad=False: the optimizer silently runs with its class defaults instead of the configured ones")
+    ci = repo.cls("solver.OptimizerSetting")
+    init = ci.methods.get("__init__")
+    if init is None:
+        raise AnalysisError("OptimizerSetting.__init__ vanished")
+    rep.saw(init)
+    for attr in ("optimizer_args", "scheduler_args"):
+        stores = [a for a in ast.walk(init.node) if isinstance(a, ast.Assign) and any(dump(t) == f"self.{attr}" for t in a.targets)]
+        if not stores:
+            rep.violation(R, init.site(), init.fq, f"self.{attr} stored", "not stored", f"{attr} not stored")
+            continue
+        for st in stores:
+            v = st.value
+            plain = dump(v) in (attr, f"dict({attr})", f"{{**{attr}}}", f"{attr}.copy()", f"copy.copy({attr})", f"copy.deepcopy({attr})")
+            comp_all = isinstance(v, ast.DictComp) and len(v.generators) == 1 and not v.generators[0].ifs and attr in dump(v.generators[0].iter) and dump(v.key) in dump(v.generators[0].target) and dump(v.value) in dump(v.generators[0].target)
+            filtered = isinstance(v, (ast.DictComp, ast.GeneratorExp, ast.ListComp)) and any(g.ifs for g in v.generators) or any(isinstance(x, (ast.DictComp, ast.GeneratorExp)) and any(g.ifs for g in x.generators) for x in ast.walk(v))
+            if plain or comp_all:
+                rep.ok(R, init.site(st), init.fq, f"self.{attr} holds every given entry", dump(v)[:60])
+            elif filtered:
+                rep.violation(R, init.site(st), init.fq, f"self.{attr} holds every given entry", f"entries filtered: {dump(v)[:80]}", f"{attr} filtered")
+            else:
+                rep.undecided(R, init.site(st), init.fq, f"self.{attr} recognisable as the given mapping or a copy of it", dump(v)[:80])
+
+
 def run(repo: Repo, rep):
+    r6_settings_unchanged(repo, rep)
     from .generic import g_arg_constructor_parameters
     g_arg_constructor_parameters(repo, rep, lambda m: ".conditions." in m or m.endswith(".solver") or ".models.parameter" in m or ".models.activation_fn" in m, floor=15,
                                  why="a condition subclass that does not pass `weight` (or `parameter`, `track_gradients`) on to its base trains with the base's default")
